@@ -29,6 +29,7 @@ func main() {
 	mutant := flag.String("mutant", "", "run the property check on one seeded variant (overlay only) and report whether it is detected")
 	selftest := flag.Bool("selftest", false, "run every seeded variant of -property (or of all properties) and print the kill table")
 	replay := flag.String("replay", "", "replay file: re-run the rules and report, per recorded key, whether it still violates")
+	seedDir := flag.String("seedpatch", "", "directory of one kept sub-agent seed (patch.diff, meta.json): apply it through an overlay and report whether the property's rules fire")
 	flag.Parse()
 	if *list {
 		for _, id := range props.IDs() {
@@ -44,6 +45,9 @@ func main() {
 	}
 	if *mutant != "" {
 		os.Exit(runMutant(*mutant, *repo, *known))
+	}
+	if *seedDir != "" {
+		os.Exit(runSeedPatch(*seedDir, *prop, *repo, *known))
 	}
 	if *selftest {
 		ids := props.IDs()
@@ -141,6 +145,143 @@ func thorough(c *props.Check, r *core.Report, repo, known string, findings []cor
 	}
 	r.Extra["variants"] = map[string]any{"tried": tried, "killed": killed, "not_applicable_on_this_tree": na, "table": table}
 	fmt.Printf("selftest property=%s variants tried=%d killed=%d na=%d\n", c.ID, tried, killed, na)
+	// the kept sub-agent changes of this property (independent of the checker's author):
+	// each is applied to the current tree through an overlay; informational.
+	seeds := seedTest(c.ID, repo, known)
+	caught, missed, sna := 0, 0, 0
+	var st []map[string]string
+	for _, x := range seeds {
+		st = append(st, map[string]string{"id": x.ID, "status": x.Status, "detail": x.Detail})
+		switch x.Status {
+		case "CAUGHT":
+			caught++
+		case "NA":
+			sna++
+		default:
+			missed++
+			fmt.Printf("info: sub-agent seed %s is not reported by %s on this tree: %s\n", x.ID, c.ID, x.Detail)
+		}
+	}
+	r.Extra["subagent_seeds"] = map[string]any{"caught": caught, "missed": missed, "not_applicable_on_this_tree": sna, "table": st}
+	fmt.Printf("seeds property=%s caught=%d missed=%d na=%d\n", c.ID, caught, missed, sna)
+}
+
+// seedTest runs every kept sub-agent seed of the property in a subprocess.
+func seedTest(id, repo, known string) []mutRes {
+	root := filepath.Join(filepath.Dir(known), "seeded")
+	ents, _ := os.ReadDir(root)
+	var dirs []string
+	for _, e := range ents {
+		if e.IsDir() && strings.HasPrefix(e.Name(), id+"-") {
+			dirs = append(dirs, filepath.Join(root, e.Name()))
+		}
+	}
+	sort.Strings(dirs)
+	self, _ := os.Executable()
+	out := make([]mutRes, len(dirs))
+	var wg sync.WaitGroup
+	sem := make(chan struct{}, 8)
+	for i := range dirs {
+		wg.Add(1)
+		go func(i int) {
+			defer wg.Done()
+			sem <- struct{}{}
+			defer func() { <-sem }()
+			b, _ := exec.Command(self, "-seedpatch", dirs[i], "-property", id, "-repo", repo, "-known", known).CombinedOutput()
+			lines := strings.Split(strings.TrimSpace(string(b)), "\n")
+			last := lines[len(lines)-1]
+			stt := "ERROR"
+			for _, k := range []string{"CAUGHT", "MISSED", "NA"} {
+				if strings.HasPrefix(last, "SEED "+k) {
+					stt = k
+				}
+			}
+			out[i] = mutRes{ID: filepath.Base(dirs[i]), Status: stt, Detail: strings.TrimSpace(strings.TrimPrefix(last, "SEED "+stt))}
+		}(i)
+	}
+	wg.Wait()
+	return out
+}
+
+// runSeedPatch applies a kept patch.diff to copies of the files it touches (in a
+// temporary directory outside /repo and /verif, removed at once), loads the tree
+// with those files overlaid and reports whether the property's rules fire.
+func runSeedPatch(dir, prop, repo, known string) int {
+	c := props.Get(prop)
+	if c == nil {
+		fmt.Println("SEED NA no check for", prop)
+		return 4
+	}
+	patch, err := os.ReadFile(filepath.Join(dir, "patch.diff"))
+	if err != nil {
+		fmt.Println("SEED NA", err)
+		return 4
+	}
+	var files []string
+	for _, l := range strings.Split(string(patch), "\n") {
+		if strings.HasPrefix(l, "+++ b/") {
+			files = append(files, strings.TrimPrefix(l, "+++ b/"))
+		}
+	}
+	tmp, err := os.MkdirTemp("", "gogucheck-seed-")
+	if err != nil {
+		fmt.Println("SEED NA", err)
+		return 4
+	}
+	defer os.RemoveAll(tmp)
+	for _, f := range files {
+		src, err := os.ReadFile(filepath.Join(repo, f))
+		if err != nil {
+			continue // a file the patch creates
+		}
+		os.MkdirAll(filepath.Dir(filepath.Join(tmp, f)), 0o755)
+		os.WriteFile(filepath.Join(tmp, f), src, 0o644)
+	}
+	cmd := exec.Command("git", "apply", "--unsafe-paths", "--directory="+tmp, filepath.Join(dir, "patch.diff"))
+	cmd.Dir = tmp
+	cmd.Env = append(os.Environ(), "GIT_CEILING_DIRECTORIES="+filepath.Dir(tmp))
+	if b, err := cmd.CombinedOutput(); err != nil {
+		// fall back to patch(1)
+		cmd2 := exec.Command("patch", "-p1", "-s", "-i", filepath.Join(dir, "patch.diff"))
+		cmd2.Dir = tmp
+		if b2, err2 := cmd2.CombinedOutput(); err2 != nil {
+			fmt.Printf("SEED NA the patch no longer applies to this tree (%s / %s)\n", strings.TrimSpace(string(b)), strings.TrimSpace(string(b2)))
+			return 4
+		}
+	}
+	overlay := map[string][]byte{}
+	for _, f := range files {
+		b, err := os.ReadFile(filepath.Join(tmp, f))
+		if err == nil {
+			overlay[filepath.Join(repo, f)] = b
+		}
+	}
+	r, err := analyse(c, "quick", repo, overlay, 0)
+	if err != nil {
+		fmt.Println("SEED NA the patched tree does not load:", err)
+		return 4
+	}
+	findings, _ := core.LoadFindings(known)
+	n := r.NewViolations(findings)
+	if n == 0 {
+		fmt.Println("SEED MISSED no new diagnostic")
+		return 3
+	}
+	first := ""
+	knownKeys := map[string]bool{}
+	for _, f := range findings {
+		if f.Status == "known" && f.Property == prop {
+			knownKeys[f.Key()] = true
+		}
+	}
+	for _, d := range r.Diags() {
+		if !knownKeys[d.Key()] {
+			first = d.Key() + " @" + d.Pos
+			break
+		}
+	}
+	fmt.Printf("SEED CAUGHT %d new diagnostics, first: %s\n", n, first)
+	return 0
 }
 
 type mutRes struct{ ID, Status, Detail string }
